@@ -130,7 +130,7 @@ HDgetdatainfo(int32 file_id, uint16 tag, uint16 ref, int32 *chk_coord, unsigned 
         HGOTO_ERROR(DFE_ARGS, FAIL);
 
     /* Convert file id to file rec and check for validity */
-    file_rec = HAatom_object(file_id);
+    file_rec = HIfile_rec(file_id);
     if (BADFREC(file_rec))
         HGOTO_ERROR(DFE_ARGS, FAIL);
 
@@ -1021,7 +1021,7 @@ ANgetdatainfo(int32  ann_id, /* IN: annotation id */
 
     /* Convert file_id to file rec and check for validity */
     file_id  = ann_node->file_id;
-    file_rec = HAatom_object(file_id);
+    file_rec = HIfile_rec(file_id);
     if (BADFREC(file_rec))
         HGOTO_ERROR(DFE_INTERNAL, FAIL);
 
